@@ -335,8 +335,11 @@ public:
 	*/
 	void copy(const T* p, int n)
 	{
+		int m = min(n, length()); // p may point into this array: take those items before resize() destroys the tail
+		for (int i = 0; i < m; i++)
+			_a[i] = p[i];
 		resize(n);
-		for (int i = 0; i < n; i++)
+		for (int i = m; i < n; i++)
 			_a[i] = p[i];
 	}
 
